@@ -591,7 +591,7 @@ func VerifC13Framing() {
 	if verifIsSymbolic() {
 		// frames are independent pickles: each one is decoded by a decoder of its own (a decoder keeps its memo
 		// between Decode calls, so a shared one lets a later frame resolve back-references into an earlier frame)
-		verifAssert(verifCalledSince(mark, "og-rek.NewDecoder") == verifCalledSince(mark, "og-rek.Decoder).Decode"), "every-frame-decoded-by-a-fresh-decoder")
+		verifAssert(verifCalledSince(mark, "og-rek.NewDecoder") == verifCalledSince(mark, "og-rek.Decoder).Decode"), "structural/every-frame-decoded-by-a-fresh-decoder")
 	}
 	verifAssert(bytes.Equal(d.events, wantEvents), "items-of-good-frames-processed-in-order-nothing-from-bad-frame")
 	verifAssert(verifLinesEqual(d.copies, wantLines), "valid-items-dispatched-as-name-value-timestamp")
